@@ -226,6 +226,12 @@ def generate(repo: pathlib.Path) -> dict[str, str]:
     nsdecl = [n for n in ast.walk(fu) if isinstance(n, ast.JoinedStr)]
     _need(len(nsdecl) == 1 and isinstance(nsdecl[0].values[0], ast.Constant), "_unmapped_attrs: xmlns f-string not found")
     L.append(f"Definition XMLNS_PREFIX : str := {g_str(nsdecl[0].values[0].value)}.")
+    # --- the root attribute after which a line break is forced
+    fel0 = _func(exs, "_serialize_element")
+    brk = [n for n in ast.walk(fel0) if isinstance(n, ast.Compare) and ast.unparse(n.left) == "attr" and len(n.ops) == 1
+           and isinstance(n.ops[0], ast.Eq) and isinstance(n.comparators[0], ast.Constant)]
+    _need(len(brk) == 1, "_serialize_element: forced-break attribute test not found")
+    L.append(f"Definition ROOT_BREAK_ATTR : str := {g_str(_const(brk[0].comparators[0], str))}.")
     # --- _ns_sortkey rank table
     fk = _func(exs, "_ns_sortkey")
     ranks, default = [], None
